@@ -241,6 +241,55 @@ func c04rest(c *Ctx) {
 		}
 		return true, ""
 	})
+	// header copy: every buffered header key is copied with ALL its values
+	c.forall("C04.R3", name+"#headers", "the buffered headers are copied to the real writer key by key with their complete value lists (dst[k] = vv over the buffered map), not value by value through Get/Set", f, ps, func(p *px.Path) (bool, string) {
+		sel := p.First(func(e *px.Event) bool { return e.Kind == px.EvSelect && !e.InGo })
+		if sel == nil || sel.SelIndex < 0 || sel.SelDir != types.RecvOnly || doneOf(sel.Addr) != nil {
+			return true, ""
+		}
+		closed := p.First(func(e *px.Event) bool { return e.Kind == px.EvClose && e.InGo })
+		if closed == nil || closed.Addr.Strip(false) != sel.Addr.Strip(false) {
+			return true, ""
+		}
+		for i := sel.Seq + 1; i < len(p.Events); i++ {
+			e := &p.Events[i]
+			if e.InGo {
+				continue
+			}
+			if e.Kind == px.EvCall && e.Call.Obj() != nil && (shortName(e.Call) == "net/http.(Header).Set" || shortName(e.Call) == "net/http.(Header).Add") {
+				for _, a := range e.Call.Args {
+					if x := a.Strip(false); x.Kind == px.KCall && shortName(x.Call) == "net/http.(Header).Get" {
+						return false, "headers are copied through Header.Get/Set: only the first value of each key reaches the client (a second Set-Cookie or Vary is lost)"
+					}
+				}
+			}
+			if e.Kind == px.EvMapUpdate {
+				dst := e.Addr.Strip(false)
+				if dst.Kind == px.KCall && dst.Call.Method != nil && dst.Call.Method.Name() == "Header" && isParam(dst.Call.Recv, wP) {
+					k, v := e.Key.Strip(false), e.Val.Strip(false)
+					if k.Kind != px.KExtract || v.Kind != px.KExtract || k.X != v.X || k.X.Kind != px.KNext || k.Index != 1 || v.Index != 2 {
+						return false, "a header is not copied as dst[k] = vv from one iteration over the buffered header map"
+					}
+					fromH := false
+					if k.X.X != nil && k.X.X.Kind == px.KRange {
+						rs := k.X.X.X.Strip(false)
+						if px.IsFieldLoad(rs, "h", nil) {
+							fromH = true
+						}
+						for _, st := range p.All(px.KindIs(px.EvStore)) {
+							if px.FieldAddrIs(st.Addr, "h", nil) && st.Val.Strip(false) == rs {
+								fromH = true
+							}
+						}
+					}
+					if !fromH {
+						return false, "the copied headers do not come from the buffering writer's own header map"
+					}
+				}
+			}
+		}
+		return true, ""
+	})
 	// timeout branch: the real writer is used, and timedOut set, only while the writer's mutex is held
 	c.forall("C04.R3", name+"#timeout", "on the ctx.Done() branch the timeout response is written to the real writer and timedOut is set while the writer's mutex is held throughout (a handler still running cannot interleave its own output or headers with the timeout response)", f, ps, func(p *px.Path) (bool, string) {
 		sel := p.First(func(e *px.Event) bool { return e.Kind == px.EvSelect && !e.InGo })
